@@ -11,14 +11,14 @@ Open Scope string_scope. Open Scope list_scope. Open Scope nat_scope.
    the 10 import forms are the subject of the alias rule below).  For every form defined where it is found (its
    module is its parent's module) the member the Inspector creates from what CPython reports has the same Griffe kind
    and the same shared labels (async, staticmethod, classmethod, property, cached) as the member the Visitor creates
-   from the source text -- except inside the known gap F3 (async def in a class body). *)
-Theorem C17_kind_agrees_modulo_known :
+   from the source text. *)
+Theorem C17_kind_agrees :
   forall d e p cur name hf,
-  is_import d = false -> gap_async_in_class d = false ->
+  is_import d = false ->
   ae_child_mod e = Some p -> ae_parent_mod e = Some p ->
   skeleton (inspect_child (runtime_features d) e cur name hf) = skeleton (visitor_member d).
 Proof. exact kind_agrees_in_place. Qed.
-Print Assumptions C17_kind_agrees_modulo_known.
+Print Assumptions C17_kind_agrees.
 
 (* module / class / function / attribute agrees for every form, gap or not *)
 Theorem C17_gkind_agrees :
@@ -26,18 +26,6 @@ Theorem C17_gkind_agrees :
   member_gkind (visitor_member d) = member_gkind (inspect_member (runtime_features d)).
 Proof. exact gkind_agrees. Qed.
 Print Assumptions C17_gkind_agrees.
-
-Theorem C17_kind_agrees_refuted :
-  exists d, is_import d = false /\ skeleton (visitor_member d) <> skeleton (inspect_member (runtime_features d)).
-Proof. exact kind_agrees_refuted. Qed.
-Print Assumptions C17_kind_agrees_refuted.
-
-(* the gap predicate is exact: every form inside it does disagree *)
-Theorem C17_kind_gap_exact :
-  forall d, is_import d = false -> gap_async_in_class d = true ->
-  skeleton (visitor_member d) <> skeleton (inspect_member (runtime_features d)).
-Proof. exact kind_gap_exact. Qed.
-Print Assumptions C17_kind_gap_exact.
 
 (* for EVERY vector of runtime observations (not only those of the 24 forms) the ladder's kind has an inspect_<kind>
    handler: the dispatch never falls through to generic_inspect *)
@@ -122,12 +110,11 @@ Theorem C17_alias_value_exception :
 Proof. exact dynamic_value_rule. Qed.
 Print Assumptions C17_alias_value_exception.
 
-(* ---- parameters, for every argument-list length (through C02_parameters_eq_cpython) *)
-Theorem C17_params_agree_modulo_variadic :
-  forall a, wf a = true ->
-  exists vs, visitor_parameters a = Ok vs /\ Forall2 param_agree vs (inspector_parameters false a).
-Proof. exact params_agree_modulo_variadic. Qed.
-Print Assumptions C17_params_agree_modulo_variadic.
+(* ---- parameters, for every argument-list length (through C02_parameters_eq_cpython): the same list on both sides *)
+Theorem C17_params_agree :
+  forall a, wf a = true -> visitor_parameters a = Ok (inspector_parameters a).
+Proof. exact params_agree. Qed.
+Print Assumptions C17_params_agree.
 
 Theorem C17_visitor_required_is_cpython :
   forall a, wf a = true ->
@@ -135,53 +122,25 @@ Theorem C17_visitor_required_is_cpython :
 Proof. exact visitor_required_is_cpython. Qed.
 Print Assumptions C17_visitor_required_is_cpython.
 
-Theorem C17_inspector_required_refuted :
-  exists a, wf a = true /\ map gp_required (inspector_parameters false a) <> map cpython_required (inspect_signature a).
-Proof. exact inspector_required_refuted. Qed.
-Print Assumptions C17_inspector_required_refuted.
+Theorem C17_inspector_required_is_cpython :
+  forall a, map gp_required (inspector_parameters a) = map cpython_required (inspect_signature a).
+Proof. exact inspector_required_is_cpython. Qed.
+Print Assumptions C17_inspector_required_is_cpython.
 
-Theorem C17_inspector_required_modulo_variadic :
-  forall a, Forall (fun p => is_variadic (ip_kind p) = false -> gp_required (convert_parameter p) = cpython_required p)
-                   (inspect_signature a).
-Proof. exact inspector_required_modulo_variadic. Qed.
-Print Assumptions C17_inspector_required_modulo_variadic.
-
-Theorem C17_classmethod_params_refuted :
-  exists a vs, wf a = true /\ visitor_parameters a = Ok vs /\ map gp_name vs <> map gp_name (inspector_parameters true a).
-Proof. exact classmethod_params_refuted. Qed.
-Print Assumptions C17_classmethod_params_refuted.
-
-(* the bound first parameter is the only difference *)
-Theorem C17_classmethod_params_modulo_known :
-  forall a, wf a = true -> posonly a ++ args a <> [] ->
-  exists v vs, visitor_parameters a = Ok (v :: vs) /\ Forall2 param_agree vs (inspector_parameters true a).
-Proof. exact classmethod_params_modulo_known. Qed.
-Print Assumptions C17_classmethod_params_modulo_known.
-
-(* ---- docstrings *)
-Theorem C17_docstring_refuted :
-  exists v, first_line_blank v = true /\ static_doc v <> dynamic_doc v.
-Proof. exact docstring_refuted. Qed.
-Print Assumptions C17_docstring_refuted.
+(* ---- docstrings: both agents hand the raw text to Docstring, which cleans it once *)
+Theorem C17_docstring_agree :
+  forall v, static_doc v = dynamic_doc v.
+Proof. exact docstring_agree. Qed.
+Print Assumptions C17_docstring_agree.
 
 (* ---- which members the Inspector looks at (ObjectNode._pick_member) *)
-Theorem C17_pick_member_refuted :
-  exists e, pick_member_intended e = true /\ pick_member e = false.
-Proof. exact pick_member_refuted. Qed.
-Print Assumptions C17_pick_member_refuted.
+Theorem C17_pick_member_spec :
+  forall e, pick_member e = negb (mem_str (pk_name e) exclude_specials) && negb (pk_is_type e) && negb (pk_is_object e)
+                            && negb (pk_is_ancestor e) && pk_in_vars e.
+Proof. exact pick_member_spec. Qed.
+Print Assumptions C17_pick_member_spec.
 
-Theorem C17_pick_member_modulo_known :
-  forall e, gap_none_in_submodule e = false -> pick_member e = pick_member_intended e.
-Proof. exact pick_member_modulo_known. Qed.
-Print Assumptions C17_pick_member_modulo_known.
-
-Theorem C17_pick_member_gap_exact :
-  forall e, gap_none_in_submodule e = true -> pick_member e = false.
-Proof. exact pick_member_gap_exact. Qed.
-Print Assumptions C17_pick_member_gap_exact.
-
-(* outside gap F5 the two agents store the same docstring text, for every number of lines and every indentation *)
-Theorem C17_docstring_agree_modulo_known :
-  forall v, first_line_blank v = false -> static_doc v = dynamic_doc v.
-Proof. exact doc_agree_first_line_nonblank. Qed.
-Print Assumptions C17_docstring_agree_modulo_known.
+Theorem C17_pick_member_none_in_submodule :
+  forall n k, pick_member (mkPick n false false false true k true) = negb (mem_str n exclude_specials).
+Proof. exact pick_member_none_in_submodule. Qed.
+Print Assumptions C17_pick_member_none_in_submodule.
